@@ -70,10 +70,48 @@ theorem bookResource_books_iff (e : Env) (σ : St) (t : Nat) (w : Walk) (r : Nat
 
 /-! ### bounds -/
 
-/-- the forward bound dominates every dependency's (start | end) + gap -/
-theorem earliestStart_ge_dep (σ : St) (deps : List Dep) (base : Int) (dp : Dep) (hd : dp ∈ deps) (dt : Int)
+/-- the slot after the one a date lies in starts after the date (`idx` truncates towards zero) -/
+theorem lt_time_idx_succ (e : Env) (hG : 0 < e.G) (dt : Int) : dt < e.time (e.idx dt + 1) := by
+  unfold Env.time Env.idx
+  have h1 := Int.mul_tdiv_add_tmod (dt - e.start) e.G
+  have h2 : Int.tmod (dt - e.start) e.G < e.G := Int.tmod_lt_of_pos _ hG
+  have e1 : (Int.tdiv (dt - e.start) e.G + 1) * e.G = e.G * Int.tdiv (dt - e.start) e.G + e.G := by
+    rw [Int.add_mul, Int.mul_comm]; omega
+  omega
+
+/-- a `gaplength` walk never ends before the date it starts from -/
+theorem lenWalk_ge (e : Env) (hG : 0 < e.G) (f : Nat) (rem i dt : Int) (h : dt ≤ e.time (i + 1)) :
+    dt ≤ lenWalk e f rem i dt := by
+  induction f generalizing rem i dt with
+  | zero => exact Int.le_refl _
+  | succ f ih =>
+    unfold lenWalk
+    have hstep : e.time (i + 1) ≤ e.time (i + 1 + 1) := by unfold Env.time; rw [Int.add_mul (i + 1) 1 e.G]; omega
+    split
+    · rename_i hc
+      simp only [Bool.and_eq_true, decide_eq_true_eq] at hc
+      split
+      · split
+        · omega
+        · exact Int.le_trans h (ih _ _ _ hstep)
+      · exact Int.le_trans h (ih _ _ _ hstep)
+    · exact Int.le_refl _
+
+/-- the date a dependency contributes is at or after (start | end) + gapduration: a `gaplength` only moves it on -/
+theorem depDate_ge (e : Env) (hG : 0 < e.G) (dp : Dep) (dt : Int) : dt + dp.gap ≤ depDate e dp dt := by
+  unfold depDate
+  split
+  · rename_i hc
+    simp only [Bool.and_eq_true, decide_eq_true_eq, beq_iff_eq] at hc
+    rw [hc.2]
+    have := lenWalk_ge e hG (e.size.toNat + 2) dp.glen (e.idx dt) dt (Int.le_of_lt (lt_time_idx_succ e hG dt))
+    omega
+  · exact Int.le_refl _
+
+/-- the forward bound dominates the date every dependency contributes -/
+theorem earliestStart_ge_depDate (e : Env) (σ : St) (deps : List Dep) (base : Int) (dp : Dep) (hd : dp ∈ deps) (dt : Int)
     (hdt : (if dp.onstart then (σ.tst dp.target).start else (σ.tst dp.target).stop) = some dt) :
-    dt + dp.gap ≤ earliestStart σ deps base := by
+    depDate e dp dt ≤ earliestStart e σ deps base := by
   unfold earliestStart
   induction deps generalizing base with
   | nil => cases hd
@@ -82,10 +120,10 @@ theorem earliestStart_ge_dep (σ : St) (deps : List Dep) (base : Int) (dp : Dep)
     rcases List.mem_cons.mp hd with rfl | hm
     · have hge := foldl_ge_init (fun acc (dp : Dep) =>
           match (if dp.onstart then (σ.tst dp.target).start else (σ.tst dp.target).stop) with
-          | some dt => max acc (dt + dp.gap)
+          | some dt => max acc (depDate e dp dt)
           | none => acc) xs
           (match (if dp.onstart then (σ.tst dp.target).start else (σ.tst dp.target).stop) with
-            | some dt => max base (dt + dp.gap)
+            | some dt => max base (depDate e dp dt)
             | none => base)
           (by intro acc y; split
               · exact Int.le_max_left _ _
@@ -95,6 +133,12 @@ theorem earliestStart_ge_dep (σ : St) (deps : List Dep) (base : Int) (dp : Dep)
       rw [hdt]
       exact Int.le_trans (Int.le_max_right _ _) hge
     · exact ih _ hm
+
+/-- the forward bound dominates every dependency's (start | end) + gap -/
+theorem earliestStart_ge_dep (e : Env) (hG : 0 < e.G) (σ : St) (deps : List Dep) (base : Int) (dp : Dep) (hd : dp ∈ deps) (dt : Int)
+    (hdt : (if dp.onstart then (σ.tst dp.target).start else (σ.tst dp.target).stop) = some dt) :
+    dt + dp.gap ≤ earliestStart e σ deps base :=
+  Int.le_trans (depDate_ge e hG dp dt) (earliestStart_ge_depDate e σ deps base dp hd dt hdt)
 
 /-- the cursor and the in-slot offset reconstruct the bound exactly -/
 theorem cursorOf_exact (e : Env) (wf : WF e) (x : Int) (hx : e.start ≤ x) :
